@@ -13,7 +13,7 @@ import (
 )
 
 func init() {
-	register("C20", "Structural clauses behind codec and framing soundness: for Stat and Packet the struct tags, the embedded descriptor (decoded from the rawDesc literal), both marshal variants, UnmarshalVT and the field mentions of SizeVT/CloneVT/EqualVT agree field by field on number and wire type; decoding never stores a sub-slice of its input (no-retain analysis of the input parameter, through nested messages) and UnmarshalVTUnsafe has no caller; every slice of the input and every allocation sized by a decoded length is dominated by fatal bounds tests; the stream adapter reads only with io.ReadFull, uses one byte-order object and a 4-byte prefix on both sides, returns before touching the pool on a zero length, returns the pooled buffer only by defer, writes prefix and body in one Write, and its panicking type assertions are satisfiable by the message type the module sends (finding F7, fixed). The body of a frame is read into a buffer cut to the frame's length. Every length prefix is sized (SizeVT) and written (both marshal variants) from the length of the payload it precedes. Every varint loop of the generated decoders masks the input byte with 0x7F, advances the shift by 7, refuses a shift of 64 or more and ends on a byte below 0x80. Does not decide round-trip equality for all values nor absence of panics on arbitrary bytes (index arithmetic).", runC20)
+	register("C20", "Structural clauses behind codec and framing soundness: for Stat and Packet the struct tags, the embedded descriptor (decoded from the rawDesc literal), both marshal variants, UnmarshalVT and the field mentions of SizeVT/CloneVT/EqualVT agree field by field on number and wire type; decoding never stores a sub-slice of its input (no-retain analysis of the input parameter, through nested messages) and UnmarshalVTUnsafe has no caller; every slice of the input and every allocation sized by a decoded length is dominated by fatal bounds tests; the stream adapter reads only with io.ReadFull, uses one byte-order object and a 4-byte prefix on both sides, returns before touching the pool on a zero length, returns the pooled buffer only by defer, writes prefix and body in one Write, and its panicking type assertions are satisfiable by the message type the module sends (finding F7, fixed). The body of a frame is read into a buffer cut to the frame's length. Every length prefix is sized (SizeVT) and written (both marshal variants) from the length of the payload it precedes. Every varint loop of the generated decoders masks the input byte with 0x7F, advances the shift by 7, refuses a shift of 64 or more and ends on a byte below 0x80. A decoded map entry is stored whatever its key and value hold (no success without the store once the map was ensured). Does not decide round-trip equality for all values nor absence of panics on arbitrary bytes (index arithmetic).", runC20)
 }
 
 func runC20(c *Ctx) {
@@ -24,6 +24,50 @@ func runC20(c *Ctx) {
 	r20_5(c, "R20.5")
 	r20_6(c, "R20.6")
 	r20_7(c, "R20.7")
+	r20_8(c, "R20.8")
+}
+
+// R20.8: a decoded map entry is stored, whatever it holds.
+//
+// The generic runtime keeps a map entry whose value is empty (a flag
+// attribute): the hand-written decoders do so too only if the store into the
+// message's map is not made to depend on what was decoded. From the point
+// where the decoder makes sure the map exists, no successful end of the
+// decoding is reachable without passing the store of the entry.
+func r20_8(c *Ctx, rule string) {
+	c.R.Rule(rule, "UnmarshalVT / UnmarshalVTUnsafe: once the map of a message field was ensured for an entry, no success return is reachable without the store of that entry into the map (entries with an empty key or value are entries)")
+	n := 0
+	for _, name := range []string{"types.(*Stat).UnmarshalVT", "types.(*Stat).UnmarshalVTUnsafe"} {
+		fn := c.P.Fn(name)
+		if fn == nil {
+			continue
+		}
+		var ensure []*ssa.If
+		eng.InstrsShallow(fn, func(in ssa.Instruction) {
+			iff, ok := in.(*ssa.If)
+			if !ok {
+				return
+			}
+			bo, ok := iff.Cond.(*ssa.BinOp)
+			if !ok || bo.Op != token.EQL {
+				return
+			}
+			if k, isK := bo.Y.(*ssa.Const); isK && k.IsNil() {
+				if _, isMap := bo.X.Type().Underlying().(*types.Map); isMap && isFieldLoad(bo.X, "types.Stat.Xattrs") {
+					ensure = append(ensure, iff)
+				}
+			}
+		})
+		for i, iff := range ensure {
+			n++
+			isStore := func(in ssa.Instruction) bool {
+				mu, ok := in.(*ssa.MapUpdate)
+				return ok && isFieldLoad(mu.Map, "types.Stat.Xattrs")
+			}
+			c.ObSuccessNeeds(rule, fmt.Sprintf("%s/map-entry#%d/stored", c.name(fn), i+1), fn, iff.Cond.(ssa.Instruction), nil, isStore, "the store of the decoded entry into Stat.Xattrs")
+		}
+	}
+	c.R.Floor(rule, "map-entry decodes in the Stat decoders", n, 2)
 }
 
 type codecMsg struct {
